@@ -119,7 +119,7 @@ CLAIMS = {
              "most with 'has columns'); _length is stored only at construction and returned by __len__; in-place writes "
              "assign single positions of list(old storage) and promotion rebuilds from all elements; row selections map one "
              "key over all columns; Row snapshots the table's current column tuples unfiltered and every accessor indexes "
-             "them with the row index; >>, <<, .T have the expected shape. Cell equality as values is not decided. For a str / bytes operand Vector.__lshift__ appends one cell on every reachable path, and table << x / x << table reach no result for a string or a mapping (three-valued evaluation per kind of operand). >> adds a mapping's named columns from either side; table << generator materialises; a Row's / Table's shape takes further dimensions from a cell only by its TYPE.",
+             "them with the row index; >>, <<, .T have the expected shape. Cell equality as values is not decided. For a str / bytes operand Vector.__lshift__ appends one cell on every reachable path, and table << x / x << table reach no result for a string or a mapping (three-valued evaluation per kind of operand). >> adds a mapping's named columns from either side; table << generator materialises; a Row's / Table's shape takes further dimensions from a cell only by its TYPE. What a mapping gives for ONE new column is a sequence of cells (no Vector(values) is reachable for a str / Mapping value); row[name] reads the FIRST column of that stored name, as table[name] does (a scan, or a first-wins dict).",
         note="A structural necessary condition is decided, not the run-time values.",
         technique="term-domain abstract interpretation (length guards as path conditions at every column store, row-view terms) + CFG dominance + who-may-store",
         design="2/C02"),
@@ -160,7 +160,7 @@ CLAIMS = {
              "(shared with C03); Table.__setitem__ resolves columns first and only delegates to column writes; with several target "
              "columns the whole assignment is REHEARSED on Table(<copies of the target columns>) with the same row spec and value "
              "before the first store (all-or-nothing), Vector keys / values are snapshotted first, an untyped empty vector key "
-             "reaches no raise (the final raise's path condition is evaluated for that key), Row.__setitem__ only raises. The value of a table assignment is judged per KIND (vector, list, tuple, one-shot iterator): the sequence written item by item holds copies of its vectors; a whole-value store is feasible for a vector and for any non-list sequence; every item of a list of target columns becomes a target or raises (CFG must-pass); the empty list key reaches no refusal on a vector of 3 (three-valued evaluation). A one-shot iterator value never reaches len(); a mapping value reaches no cell store; a number whose class is iterable (IntFlag) is one cell; several target columns take any sequence of columns (evaluated per kind of value and per assumed number of targets). Sibling agreement of every one-cell-or-sequence test in the package (numbers and enum members are exempt like text); the items of a list value that are one-shot iterators are materialised with the snapshot.",
+             "reaches no raise (the final raise's path condition is evaluated for that key), Row.__setitem__ only raises. The value of a table assignment is judged per KIND (vector, list, tuple, one-shot iterator): the sequence written item by item holds copies of its vectors; a whole-value store is feasible for a vector and for any non-list sequence; every item of a list of target columns becomes a target or raises (CFG must-pass); the empty list key reaches no refusal on a vector of 3 (three-valued evaluation). A one-shot iterator value never reaches len(); a mapping value reaches no cell store; a number whose class is iterable (IntFlag) is one cell; several target columns take any sequence of columns (evaluated per kind of value and per assumed number of targets). Sibling agreement of every one-cell-or-sequence test in the package (numbers and enum members are exempt like text); the items of a list value that are one-shot iterators are materialised with the snapshot (comprehension or append loop, also inside a helper). Attribute assignment of a column reaches no column replacement for a str / Mapping / IntFlag value; the branches of _promote convert every element (shared with C03.b).",
         note="Equality with list assignment as values (range/slice arithmetic, typeutils.slice_length) is numeric and not decided.",
         technique="CFG reachability between mutation events and may-raise events + effect summaries + finite abstract interpretation",
         design="2/C08"),
@@ -244,7 +244,7 @@ CLAIMS = {
              "reaching definitions / call sites (x[-0:] would be everything); max()/min()/x[0] over possibly empty sequences are "
              "guarded; the footer reads len(pv)/pv.shape/pv._dtype and a dtype list computed over ALL columns, homogeneity is "
              "decided over all columns; the preview is head k + ellipsis + tail k iff len > 2k with exactly one halving of the "
-             "row budget on each path (global default and per-table override); headers show stored names; repr is pure. The row limit is converted with operator.index() when it is set (a setting that is not an integer cannot reach a slice bound).",
+             "row budget on each path (global default and per-table override); headers show stored names (judged for a name that needs quoting, a plain name, the empty name '' and NO name: no name never takes the display value of a text, the name row is shown when any name is not None, a vector named '' shows its name line); repr is pure. The row limit is converted with operator.index() when it is set (a setting that is not an integer cannot reach a slice bound).",
         note="Totality over arbitrary user objects whose __str__/__eq__ raise, alignment and exact line counts are not decided.",
         technique="guard/dominance analysis + interprocedural positivity of slice bounds + definite assignment with correlated branch outcomes + term-domain evaluation of footer inputs (dtype token per situation) + effect summaries",
         design="2/C20"),
